@@ -11,6 +11,7 @@ Property theorems only; helper lemmas live in `Gsu/Proofs/Pack.lean`. The defini
 `Gsu/Model/Pack.lean` that the driver runs against the Go code.
 -/
 import Gsu.Proofs.Pack
+import Gsu.Proofs.PackUnpack
 import Gsu.Gen.Pack
 namespace Gsu.Props.C13
 open Gsu.Proto Gsu.Pack
@@ -137,18 +138,42 @@ theorem timestamp_order (d1 t1 x1 d2 t2 x2 : Nat) (h1 : d1 < 4294967296) (h2 : t
     simp [cmpDT, cmpNat, cmpB, this]
 
 /-! ## round trip and canonical form of numbers
-FULL statements, NOT proved here for all inputs (the model is tied to the code by replay and by
-the direct oracles `rt-*`, `canon-*` over every representation and the boundary values):
+FULL statements not (yet) proved for all inputs — the model is tied to the code by replay and by
+the direct oracles `rt-*`, `canon-*` over every representation and the boundary values:
   packInt_unpack  : -2^63 ≤ n → n < 2^63 → unpackNumber (packInt n) = .int n
   packDnum_unpack : d.Norm → unpackNumber (packDnum d) = .dnum d ∨
                       ∃ n, unpackNumber (packDnum d) = .int n ∧ n.natAbs * 10^16 = d.coef * 10^d.exp.toNat
                         ∧ (n < 0 ↔ d.sign < 0)          -- an integer-valued dnum comes back as the equal int
-  pack_canonical  : 0 < |n| < 10^16 → packInt n = packDnum (fromInt n)
   container_roundtrip : unpackObj (packObj tag list named) = some (list, named)
-What is missing for the first three: the digit lemmas for `digits10`/`pairs`/`stripZ`
-(`pairs_value` of the calibration) connected to `pv`, and `intable`'s range test via the order
-lemma at 10 digit pairs; the order half they would rest on (`cmpL_eq_cmpNat`, `pv_coefBytes`)
-is proved in Proofs/Pack.lean. Proved: the boundary instances below (kernel evaluation). -/
+Proved in full: `pack_canonical`, `packDnum_unpack_bigexp`; proved in part: `packDnum_unpack_partial`
+(what is missing: that the integer returned on the `intable` path has the value of `d`), and the
+boundary instances `packInt_unpack_partial` (missing: `unpackIntU` arithmetic and `intable`'s range
+test for all int64; the digit lemmas `digits10_spec`, `intPairs_facts` they need are proved). -/
+
+/-- Equal scalars, identical bytes: an integer of at most 16 digits packs to the same bytes as
+SuInt64 (`packInt`) and as smi / integer-valued SuDnum (`FromInt` + `SuDnum.Pack`). -/
+theorem pack_canonical (n : Int) (h0 : n ≠ 0) (h : n.natAbs ≤ coefMax) :
+    packInt n = packDnum (fromInt n) :=
+  Gsu.Pack.pack_canonical n h0 h
+
+example : (-120000 : Int) ≠ 0 ∧ (-120000 : Int).natAbs ≤ coefMax ∧ packInt 0 = packDnum (fromInt 0) := by
+  decide
+
+/-- A finite normalised number (any coefficient, any exponent, either sign) never unpacks as an
+infinity or an error: it comes back as exactly itself or as an integer.
+Missing for the full `packDnum_unpack`: the value of that integer. -/
+theorem packDnum_unpack_partial (d : Dnum) (h : d.Norm) :
+    unpackNumber (packDnum d) = .dnum d ∨ ∃ n, unpackNumber (packDnum d) = .int n :=
+  Gsu.Pack.unpack_packDnum d h
+
+/-- Full round trip for every finite number whose exponent is outside 0…19 (fractions < 0.1,
+magnitudes ≥ 1e19, in particular the extreme exponents −128 and +127). -/
+theorem packDnum_unpack_bigexp (d : Dnum) (h : d.Norm) (he : d.exp < 0 ∨ 19 < d.exp) :
+    unpackNumber (packDnum d) = .dnum d :=
+  Gsu.Pack.unpack_packDnum_bigexp d h he
+
+example : (⟨-1, 9999999999999999, 127⟩ : Dnum).Norm ∧ (19 : Int) < 127 := by decide
+
 theorem packInt_unpack_partial :
     ∀ n ∈ ([0, 1, -1, 10, 99, 100, -32768, 32767, 32768, 1000000, 9999999999999999,
       10000000000000000, -10000000000000001, 123456789012345678, 9223372036854775807,
@@ -156,13 +181,7 @@ theorem packInt_unpack_partial :
       -9200000000000000000, 9223372036854775800] : List Int), unpackNumber (packInt n) = .int n := by
   decide
 
-theorem pack_canonical_partial :
-    ∀ n ∈ ([1, -1, 10, 99, 100, 101, -32768, 32767, 32768, 1000000, 1234567, -120000,
-      9999999999999999, -9999999999999999, 1000000000000000] : List Int),
-      packInt n = packDnum (fromInt n) := by
-  decide
-
-theorem packDnum_unpack_partial :
+theorem packDnum_unpack_instances :
     unpackNumber (packDnum ⟨1, 1500000000000000, 1⟩) = .dnum ⟨1, 1500000000000000, 1⟩ ∧
     unpackNumber (packDnum ⟨-1, 1234567890123456, -128⟩) = .dnum ⟨-1, 1234567890123456, -128⟩ ∧
     unpackNumber (packDnum ⟨1, 9999999999999999, 127⟩) = .dnum ⟨1, 9999999999999999, 127⟩ ∧
